@@ -509,13 +509,13 @@ func (fl *e12Flow) liveEdges(ph *ssa.Phi) []ssa.Value {
 type e12Flow struct {
 	at         ssa.Instruction
 	companions map[*types.Var][]*types.Var
-	p        *Prog
-	tracked  map[*types.Var]string
-	killers  map[*types.Var]map[*ssa.Function]bool // functions that may (transitively) unset the field
-	entry    map[*ssa.Function]e12Facts            // nil = not yet constrained (top)
-	open     map[*ssa.Function]bool                // callable from outside / through values: entry is empty
-	in       map[*ssa.BasicBlock]e12Facts
-	siteCall map[ssa.Instruction][]*ssa.Function
+	p          *Prog
+	tracked    map[*types.Var]string
+	killers    map[*types.Var]map[*ssa.Function]bool // functions that may (transitively) unset the field
+	entry      map[*ssa.Function]e12Facts            // nil = not yet constrained (top)
+	open       map[*ssa.Function]bool                // callable from outside / through values: entry is empty
+	in         map[*ssa.BasicBlock]e12Facts
+	siteCall   map[ssa.Instruction][]*ssa.Function
 }
 
 func pathOfFieldAddr(fa *ssa.FieldAddr) string {
